@@ -236,12 +236,17 @@ def frame1(ctx: Ctx, chk) -> None:
 
     read_i = ctx.inl(read)
     inl_names = set(getattr(read_i, "inlined", []))
-    own_ids = {id(x) for x in ast.walk(read_i.node)}
+    # the written-out copy of a helper may consist of fresh nodes (parameter renaming): match by origin and position
+    own_pos = {(getattr(x, "_mod", None), x.lineno, x.col_offset, x.end_col_offset): x for x in ast.walk(read_i.node) if isinstance(x, ast.Call)}
+
+    def _own(n_):
+        return own_pos.get((getattr(n_, "_mod", None), n_.lineno, n_.col_offset, n_.end_col_offset))
+
     pmap: dict = {}
     for par_ in ast.walk(read_i.node):
         for ch_ in ast.iter_child_nodes(par_):
             pmap[ch_] = par_
-    reader_calls = [((read if (f_.qualname in inl_names and id(n_) in own_ids) else f_), n_, nm_) for f_, n_, nm_ in reader_calls]
+    reader_calls = [((read, _own(n_), nm_) if (f_.qualname in inl_names and _own(n_) is not None) else (f_, n_, nm_)) for f_, n_, nm_ in reader_calls]
     cn_r = Canon(ctx.I, read_i, "")
     discards = []
     for f_, n_, nm_ in list(reader_calls):
@@ -275,7 +280,7 @@ def frame1(ctx: Ctx, chk) -> None:
             chk.ok(rule, fkey(f, n), "single consumer: readuntil(b'\\n')", ctx.loc(f, n))
         else:
             chk.refute(rule, fkey(f, n), f"lines are delimited by {term!r}, not by a single newline b'\\n'", ctx.loc(f, n))
-        p = prog.parents.get(n)
+        p = prog.parents.get(n) or pmap.get(n)
         if not isinstance(p, ast.Await):
             chk.refute(rule, fkey(f, n) + "::await", "readuntil(...) is not awaited", ctx.loc(f, n))
     else:
